@@ -705,6 +705,28 @@ fn derived(p: &GhostProvider, secret: &[u8], label: &[u8]) -> u8 {
 
 const TREE_SIZE: u32 = 4;
 
+// SecretTree::new stores the encryption secret in a std HashMap; hashbrown's SIMD probing is
+// beyond CBMC (a single insert does not finish symbolic execution in 10 minutes).  In this
+// file SecretTree::new is therefore replaced by a recorder; what SecretTree::new and the rest
+// of the secret tree do with the secret is checked in secret_tree/verif_kani.rs.
+static mut TREE_NEW_CALLS: usize = 0;
+static mut TREE_NEW_SECRET: [u8; NH] = [0; NH];
+static mut TREE_NEW_LEAVES: u32 = 0;
+
+fn recording_tree_new<T: crate::tree_kem::math::TreeIndex>(
+    leaf_count: T,
+    encryption_secret: Zeroizing<Vec<u8>>,
+) -> SecretTree<T> {
+    assert!(core::mem::size_of::<T>() == 4);
+    assert!(encryption_secret.len() == NH);
+    unsafe {
+        *core::ptr::addr_of_mut!(TREE_NEW_CALLS) += 1;
+        (*core::ptr::addr_of_mut!(TREE_NEW_SECRET)).copy_from_slice(&encryption_secret);
+        *core::ptr::addr_of_mut!(TREE_NEW_LEAVES) = core::mem::transmute_copy::<T, u32>(&leaf_count);
+    }
+    SecretTree::empty()
+}
+
 fn check_epoch_secrets(
     p: &GhostProvider,
     first_call: usize,
@@ -723,15 +745,19 @@ fn check_epoch_secrets(
     assert!(is_out(es.resumption_secret.raw_value(), derived(p, epoch_secret, b"resumption"), NH));
     assert!(is_out(&ks.authentication_secret, derived(p, epoch_secret, b"authentication"), NH));
     assert!(is_out(&ks.init_secret.0, derived(p, epoch_secret, b"init"), NH));
-    // encryption_secret is the root secret of the epoch's secret tree
+    // encryption_secret becomes the root secret of the epoch's secret tree
     let enc = derived(p, epoch_secret, b"encryption");
-    let want_tree = SecretTree::new(TREE_SIZE, Zeroizing::new(out(enc, NH)));
-    assert!(es.secret_tree == want_tree);
+    unsafe {
+        assert!(*core::ptr::addr_of!(TREE_NEW_CALLS) == 1);
+        assert!(is_out(&*core::ptr::addr_of!(TREE_NEW_SECRET), enc, NH));
+        assert!(*core::ptr::addr_of!(TREE_NEW_LEAVES) == TREE_SIZE);
+    }
 }
 
 #[kani::proof]
 #[kani::stub(zeroize::optimization_barrier, noop_barrier)]
 #[kani::stub(std::hash::RandomState::new, fixed_random_state)]
+#[kani::stub(crate::group::secret_tree::SecretTree::new, recording_tree_new)]
 #[kani::unwind(16)]
 fn c13_from_epoch_secret() {
     let p = GhostProvider::new();
@@ -742,4 +768,5 @@ fn c13_from_epoch_secret() {
     kani::cover!(true);
     check_epoch_secrets(&p, 0, &epoch_secret, &r);
     assert!(r.joiner_secret.0.is_empty());
+    core::mem::forget(r);
 }
